@@ -67,6 +67,13 @@ theorem loop_selection_sites :
        ("newLState", "mainLoop", "mainLoop")] :=
   C11.loop_selection_sites
 
+theorem loop_start_sites :
+    GLua.Generated.loopStartSites =
+      [("callR", "ls.mainLoop(ls, ls.currentFrame)"),
+       ("callR", "ls.mainLoop(ls, nil)"),
+       ("threadRun", "L.mainLoop(L, nil)")] :=
+  C11.loop_start_sites
+
 theorem done_readers :
     GLua.Generated.ctxDoneReaders = ["channelReceive", "channelSelect", "channelSend", "mainLoopWithContext"] :=
   C11.done_readers
